@@ -22,7 +22,7 @@ ASSUMPTIONS = [
 ]
 PARTIAL = [
     "C08_injective covers classes with a constant, non-exempt prefix whose token covers all operands; the exempt prefix group "
-    "'operation' is an open collision (finding S1 of the C08 search: prefix "operation"), the groups add_prefix/add_suffix/getitem/loc are kept apart by operand kinds the table does not see",
+    "'operation' is an open collision (finding S1 of the C08 search), the groups add_prefix/add_suffix/getitem/loc are kept apart by operand kinds the table does not see",
     "task keys of DiskShuffle are drawn from uuid1 (D11) and the order of `Fused.exprs` depends on PYTHONHASHSEED: both are "
     "outside the model (names are a function of the tree; the tree the optimizer builds is not a function of the query alone)",
 ]
@@ -471,6 +471,8 @@ def support(ctx, broken):
             seen.add(k)
             uniq.append(fl)
     sup.failures = uniq
+    # every distinct failing signature goes into the evidence (the replay file only carries the first one)
+    sup.distribution["failures_found"] = [{"sig": f.sig, "detail": f.detail[:240]} for f in sup.failures]
     return sup
 
 
